@@ -50,8 +50,39 @@ def expected_seq(pack, l, inf):
     return out
 
 
+class _Hang(BaseException):
+    """a queue operation did not return (BaseException: nothing in the library may swallow it)"""
+
+
+def _alarm(_sig, _frm):
+    raise _Hang()
+
+
+_HANGS = [0]
+
+
 def run_history(res, packspec, ops):
-    """Run ops on the real queue; return (input lines, obs list, state list); evaluate oracle."""
+    """Run ops on the real queue; return (input lines, obs list, state list); evaluate oracle. Every history runs under an
+    alarm: the property says the queue terminates, so an operation that does not return is a violation, not a hang of the check."""
+    import signal
+
+    if _HANGS[0] >= 5:
+        return None  # already reported five times: do not spend the run waiting for more
+    old = signal.signal(signal.SIGALRM, _alarm)
+    signal.setitimer(signal.ITIMER_REAL, 10.0 if _HANGS[0] == 0 else 2.0)
+    try:
+        return _run_history(res, packspec, ops)
+    except _Hang:
+        _HANGS[0] += 1
+        res.fail("queue-operation-does-not-terminate", {"pack": packspec, "ops": ops},
+                 "a history of at most 60 operations on the queue did not finish within 10 s (a next() or do_level() that never returns)")
+        return None
+    finally:
+        signal.setitimer(signal.ITIMER_REAL, 0)
+        signal.signal(signal.SIGALRM, old)
+
+
+def _run_history(res, packspec, ops):
     ni, nn, sizes = packspec
     pack = mkpack(ni, nn, sizes)
     q = DefaultQueue(pack)
